@@ -99,9 +99,10 @@ macro_rules! rand_backend {
                 }
                 let rin = gu(c, "rin", 1) as usize;
                 let mut spt = ScalarZnx::alloc(n, rin);
+                let smag = gu(c, "smag", 1) as i64;
                 for ci in 0..rin {
                     for x in spt.at_mut(ci, 0).iter_mut() {
-                        *x = prng.sym(1);
+                        *x = prng.sym(smag);
                     }
                 }
                 let mut o = Obj { mask: vec![], body: vec![], cells: vec![], seeds: vec![], ser_same: true, refc: vec![], drawn: vec![] };
@@ -168,12 +169,14 @@ macro_rules! rand_backend {
                             }
                         } else if layout == "atk" {
                             let p: i64 = if pt_id % 2 == 0 { 5 } else { -1 };
+                            o.cells[0]["p"] = json!(p);
                             let mut atk = GLWEAutomorphismKey::alloc(deg, Base2K(b), TorusPrecision(k), Rank(rank), Dnum(dnum), Dsize(dsize));
                             m.glwe_automorphism_key_encrypt_sk(&mut atk, p, &sk, &ni, &mut source_xe, &mut source_xa, scratch.borrow());
                             for r in 0..dnum as usize {
                                 for i in 0..rank as usize {
                                     let cell = atk.at(r, i);
                                     split_glwe(&cell, &mut o.mask, &mut o.body);
+                                    o.cells.push(dump_glwe_ref(&cell));
                                 }
                             }
                         } else {
@@ -185,6 +188,7 @@ macro_rules! rand_backend {
                                     let g = GGLWEToRef::to_ref(&tsk);
                                     let cell = g.at(r, i);
                                     split_glwe(&cell, &mut o.mask, &mut o.body);
+                                    o.cells.push(dump_glwe_ref(&cell));
                                 }
                             }
                         }
@@ -373,6 +377,20 @@ macro_rules! rand_backend {
                             }
                         }
                     }
+                    "tgk" => {
+                        // GGLWE-to-GGSW key: one GGLWE per secret column i, whose columns are s_i * s_j
+                        let mut kd = GGLWEToGGSWKey::alloc(deg, Base2K(b), TorusPrecision(k), Rank(rank), Dnum(dnum), Dsize(dsize));
+                        <Module<BE> as poulpy_core::api::GGLWEToGGSWKeyEncryptSk<BE>>::gglwe_to_ggsw_key_encrypt_sk(m, &mut kd, &sk, &ni, &mut source_xe, &mut source_xa, scratch.borrow());
+                        for i in 0..rank as usize {
+                            for r in 0..dnum as usize {
+                                for j in 0..rank as usize {
+                                    let cell = kd.at(i).at(r, j);
+                                    split_glwe(&cell, &mut o.mask, &mut o.body);
+                                    o.cells.push(dump_glwe_ref(&cell));
+                                }
+                            }
+                        }
+                    }
                     "pk_diff" => {
                         // two public-key encryptions of the same plaintext with the same ephemeral secret stream and different
                         // error streams: their difference is exactly the difference of the fresh errors of every column
@@ -408,6 +426,133 @@ rand_backend!(rand_fft64ref, FFT64Ref);
 rand_backend!(rand_fft64avx, FFT64Avx);
 rand_backend!(rand_ntt120ref, NTT120Ref);
 rand_backend!(rand_ntt120avx, NTT120Avx);
+
+// ---- key bundles (C06): the circuit-bootstrapping key is generated by its bundle routine with three DIFFERENT radices /
+// precisions / noise levels for its sub-keys; the serialised bundle is cut back into stand-alone objects through the public
+// readers (blind-rotation key = distribution tag, count, GGSWs; count, (Galois element, automorphism key)*; GGLWE-to-GGSW
+// key) and the requested part is logged as ordinary "stat" events of the elementary layouts (ggsw / atk / tgk)
+macro_rules! cbk_backend {
+    ($fname:ident, $BE:ty) => {
+        pub fn $fname(c: &Value, rep: u64) -> Result<Vec<Value>, String> {
+            use poulpy_bin_fhe::blind_rotation::{BlindRotationKey, BlindRotationKeyLayout, CGGI};
+            use poulpy_bin_fhe::circuit_bootstrapping::*;
+            type BE = $BE;
+            let n = gu(c, "n", 8) as usize;
+            let rank = gu(c, "rank", 2) as u32;
+            let nlwe = gu(c, "nlwe", 4) as u32;
+            let part = c["part"].as_str().unwrap().to_string();
+            let lay = |k: &str| -> Vec<u32> { c[k].as_array().unwrap().iter().map(|v| v.as_u64().unwrap() as u32).collect() };
+            let (lb, la, lt) = (lay("brk"), lay("atk"), lay("tsk")); // [b, size, dnum, dsize]
+            let (sigma, bound) = (gu(c, "sigma10", 32) as f64 / 10.0, gu(c, "bound10", 192) as f64 / 10.0);
+            guarded(|| {
+                let m: Module<BE> = Module::<BE>::new(n as u64);
+                let deg = Degree(n as u32);
+                let brk_layout = BlindRotationKeyLayout { n_glwe: deg, n_lwe: Degree(nlwe), base2k: Base2K(lb[0]), k: TorusPrecision(lb[0] * lb[1]), dnum: Dnum(lb[2]), rank: Rank(rank) };
+                let atk_layout = GLWEAutomorphismKeyLayout { n: deg, base2k: Base2K(la[0]), k: TorusPrecision(la[0] * la[1]), dnum: Dnum(la[2]), rank: Rank(rank), dsize: Dsize(la[3]) };
+                let tsk_layout = GGLWEToGGSWKeyLayout { n: deg, base2k: Base2K(lt[0]), k: TorusPrecision(lt[0] * lt[1]), dnum: Dnum(lt[2]), dsize: Dsize(lt[3]), rank: Rank(rank) };
+                let infos = CircuitBootstrappingKeyLayout { brk_layout, atk_layout, tsk_layout };
+                let enc = CircuitBootstrappingEncryptionInfos {
+                    brk: NoiseInfos::new((lb[0] * lb[1]) as usize, sigma, bound).unwrap(),
+                    atk: NoiseInfos::new((la[0] * la[1]) as usize, sigma, bound).unwrap(),
+                    tsk: NoiseInfos::new((lt[0] * lt[1]) as usize, sigma, bound).unwrap(),
+                };
+                let mut source_xs = Source::new(seed32(0xA000 + rep / 5));
+                let mut source_xe = Source::new(seed32(0xA100 + rep));
+                let mut source_xa = Source::new(seed32(0xA200 + rep));
+                let mut sk_lwe = LWESecret::alloc(Degree(nlwe));
+                sk_lwe.fill_binary_block(2, &mut source_xs);
+                let mut sk = GLWESecret::alloc(deg, Rank(rank));
+                sk.fill_ternary_prob(0.5, &mut source_xs);
+                let mut scratch = ScratchOwned::<BE>::alloc(1 << 20);
+                let mut key: CircuitBootstrappingKey<Vec<u8>, CGGI> = CircuitBootstrappingKey::alloc_from_infos(&infos);
+                key.encrypt_sk(&m, &sk_lwe, &sk, &enc, &mut source_xe, &mut source_xa, scratch.borrow());
+                let mut blob: Vec<u8> = vec![];
+                key.write_to(&mut blob).unwrap();
+                let ser = |w: &dyn Fn(&mut Vec<u8>)| -> usize {
+                    let mut v: Vec<u8> = vec![];
+                    w(&mut v);
+                    v.len()
+                };
+                let len_brk = ser(&|v| BlindRotationKey::<Vec<u8>, CGGI>::alloc(&brk_layout).write_to(v).unwrap());
+                let len_ggsw = ser(&|v| GGSW::alloc_from_infos(&brk_layout).write_to(v).unwrap());
+                let len_atk = ser(&|v| GLWEAutomorphismKey::alloc_from_infos(&atk_layout).write_to(v).unwrap());
+                let len_tsk = ser(&|v| GGLWEToGGSWKey::alloc_from_infos(&tsk_layout).write_to(v).unwrap());
+                let skd: Vec<Vec<i64>> = (0..rank as usize).map(|i| sk.verif_data().at(i, 0).to_vec()).collect();
+                let mut out: Vec<Value> = vec![];
+                let mut ev = |layout: &str, l: &Vec<u32>, aux: Value, cells: Vec<Value>| {
+                    let mut e = c.clone();
+                    e["ev"] = json!("stat");
+                    e["layout"] = json!(layout);
+                    e["b"] = json!(l[0]);
+                    e["size"] = json!(l[1]);
+                    e["dnum"] = json!(l[2]);
+                    e["dsize"] = json!(l[3]);
+                    e["rep"] = json!(rep);
+                    e["aux"] = aux;
+                    e["cells"] = json!(cells);
+                    e["panic"] = json!("");
+                    out.push(e);
+                };
+                match part.as_str() {
+                    "brk" => {
+                        let head = len_brk - nlwe as usize * len_ggsw;
+                        for i in 0..nlwe as usize {
+                            let mut g = GGSW::alloc_from_infos(&brk_layout);
+                            let sl = &blob[head + i * len_ggsw..head + (i + 1) * len_ggsw];
+                            g.read_from(&mut &sl[..]).unwrap();
+                            let mut spt = vec![0i64; n];
+                            spt[0] = sk_lwe.raw()[i];
+                            let mut cells = vec![];
+                            for r in 0..lb[2] as usize {
+                                for cc in 0..rank as usize + 1 {
+                                    cells.push(dump_glwe_ref(&g.at(r, cc)));
+                                }
+                            }
+                            ev("ggsw", &lb, json!({"sk": skd, "spt": spt}), cells);
+                        }
+                    }
+                    "atk" => {
+                        let mut off = len_brk;
+                        let cnt = u64::from_le_bytes(blob[off..off + 8].try_into().unwrap()) as usize;
+                        off += 8;
+                        for _ in 0..cnt {
+                            let p = i64::from_le_bytes(blob[off..off + 8].try_into().unwrap());
+                            off += 8;
+                            let mut a = GLWEAutomorphismKey::alloc_from_infos(&atk_layout);
+                            a.read_from(&mut &blob[off..off + len_atk]).unwrap();
+                            off += len_atk;
+                            let mut cells = vec![];
+                            for r in 0..la[2] as usize {
+                                for i in 0..rank as usize {
+                                    cells.push(dump_glwe_ref(&a.at(r, i)));
+                                }
+                            }
+                            ev("atk", &la, json!({"sk": skd, "p": p}), cells);
+                        }
+                    }
+                    _ => {
+                        let mut t = GGLWEToGGSWKey::alloc_from_infos(&tsk_layout);
+                        t.read_from(&mut &blob[blob.len() - len_tsk..]).unwrap();
+                        let mut cells = vec![];
+                        for i in 0..rank as usize {
+                            for r in 0..lt[2] as usize {
+                                for j in 0..rank as usize {
+                                    cells.push(dump_glwe_ref(&t.at(i).at(r, j)));
+                                }
+                            }
+                        }
+                        ev("tgk", &lt, json!({"sk": skd}), cells);
+                    }
+                }
+                out
+            })
+        }
+    };
+}
+cbk_backend!(cbk_fft64ref, FFT64Ref);
+cbk_backend!(cbk_fft64avx, FFT64Avx);
+cbk_backend!(cbk_ntt120ref, NTT120Ref);
+cbk_backend!(cbk_ntt120avx, NTT120Avx);
 
 pub struct RMods {
     a: HashMap<usize, Module<FFT64Ref>>,
@@ -490,7 +635,7 @@ fn reference_cells(mods: &mut RMods, be: usize, c: &Value, seeds: &[Vec<u8>], xe
                 }
                 for ci in 0..rin {
                     for x in spt.at_mut(ci, 0).iter_mut() {
-                        *x = prng2.sym(1);
+                        *x = prng2.sym(gu(c, "smag", 1) as i64);
                     }
                 }
                 let mut cells: Vec<Value> = vec![Value::Null; dnum as usize * rin];
@@ -543,6 +688,31 @@ pub fn run_rand(mods: &mut RMods, c: &Value, out: &mut dyn FnMut(Value)) {
             for r in 0..reps {
                 let be = c.get("be").and_then(|v| v.as_u64()).map(|v| v as usize).unwrap_or((r % 4) as usize);
                 let v = (r + 10, r / 7 + 10, r + 10, r + 10);
+                if c["layout"] == "cbk" {
+                    let res = match be {
+                        0 => cbk_fft64ref(c, r),
+                        1 => cbk_fft64avx(c, r),
+                        2 => cbk_ntt120ref(c, r),
+                        _ => cbk_ntt120avx(c, r),
+                    };
+                    match res {
+                        Ok(evs) => evs.into_iter().for_each(|mut e| {
+                            e["be"] = json!(be);
+                            out(e)
+                        }),
+                        Err(p) => {
+                            let mut e = c.clone();
+                            e["ev"] = json!("stat");
+                            e["rep"] = json!(r);
+                            e["be"] = json!(be);
+                            e["aux"] = json!({});
+                            e["cells"] = json!([]);
+                            e["panic"] = json!(p);
+                            out(e);
+                        }
+                    }
+                    continue;
+                }
                 let mut e = c.clone();
                 e["ev"] = json!("stat");
                 e["rep"] = json!(r);
